@@ -761,6 +761,17 @@ def _alarm(signum, frame):
     raise CaseTimeout()
 
 
+_PROXY_NAMES = ("SymSeq", "SymInt", "SymBool", "SymReal", "SymStr", "SymChar", "ZStr", "ZBytes", "NumStr", "'Gen'", "SymKey", "Piece")
+
+
+def _proxy_leak(e):
+    """an exception raised because a proxy value reached C-level code is an engine limitation, not behaviour of the code under test"""
+    if not isinstance(e, (TypeError, AttributeError, ValueError)):
+        return False
+    m = str(e)
+    return any(n in m for n in _PROXY_NAMES)
+
+
 def explore(fn, max_paths=20000, timeout_s=None, want_samples=True, expected=()):
     """Explore all feasible paths of fn(ctx).  fn returns a list of (label, obligation) with
     obligation a z3 Bool or python bool.  Returns a stats dict; violations carry the model values."""
@@ -830,6 +841,8 @@ def explore(fn, max_paths=20000, timeout_s=None, want_samples=True, expected=())
                 except Exception as e:
                     if expected and isinstance(e, expected):
                         st["paths"] += 1
+                    elif _proxy_leak(e):
+                        st["inconclusive"].append("Unsupported: proxy reached C-level code: %s: %s" % (type(e).__name__, str(e)[:160]))
                     else:
                         st["paths"] += 1
                         import traceback
